@@ -39,6 +39,10 @@ def replay_doc(doc, ybin, root):
             d, err, closed = P.read_all(model, proto, "binary", io.BytesIO(a))
             why = ("reader raised %r" % err) if err is not None else sw.flat_equal(model.env, pkg.namespace, proto, sw.flat_values(proto, vals), d)
             return bool(why), why
+        if cls in ("write_error_not_surfaced", "writer_crashed_on_write_error") and doc["violation"].get("nodes") == "cpp":
+            data = cx.codec.encode_stream(proto, pkg.namespace, model.schema(proto), vals)
+            res = cm.run_plan([data], [{"proto": proto.name, "op": "relay", "in_fmt": "binary", "out_fmt": "binary", "input": 0, "batch": [1] * cm.copyto[proto.name], "fail_at": doc["fail_at"]}])[0]
+            return bool(res.get("crashed") or res.get("ok")), "relay result: ok=%s %s" % (res.get("ok"), res.get("what"))
         if cls == "write_error_not_surfaced":
             data = cx.codec.encode_stream(proto, pkg.namespace, model.schema(proto), vals)
             out, err = P.relay(model, proto, "binary", io.BytesIO(data), "binary", P.SimSink(fail_at=doc["fail_at"]))
@@ -63,7 +67,7 @@ def main():
                assumptions=["reference codec per docs/reference with one declared deviation: int8/uint8 as one raw byte (probed and reported by C01)",
                             "NDJSON carries finite floats only"],
                replay_fn=replay_doc, quick_budget=170,
-               fault_keys=("short_read_delivery", "stream_gt_64k", "stream_gt_1m", "all_streams_empty", "write_error_injected"))
+               fault_keys=("short_read_delivery", "stream_gt_64k", "stream_gt_1m", "all_streams_empty", "write_error_injected", "cpp_write_error_injected"))
 
 
 if __name__ == "__main__":
